@@ -195,7 +195,7 @@ def _timeout_for(shard):
     return int(600 + 60 * (big / 5000.0) ** 2 + sum(r["nops"] for r in shard) / 50)
 
 
-def _validate_shard(ctx, si, shard, cfg="Trace_RegAlloc", tag="ra"):
+def _validate_shard(ctx, si, shard, cfg="Trace_RegAlloc", tag="ra", stop_at_first=False):
     """-> (validated records, rejections [(rec, verdict, witness)], timed_out records); continues after a rejection."""
     validated, rej, chunk, rnd = [], [], list(shard), 0
     while chunk:
@@ -223,7 +223,7 @@ def _validate_shard(ctx, si, shard, cfg="Trace_RegAlloc", tag="ra"):
         wit = [int(x) for x in re.findall(r"-?\d+", m.group(3))]
         validated += chunk[:k - 1]
         rej.append((chunk[k - 1], m.group(2), wit))
-        chunk = chunk[k:]
+        chunk = [] if stop_at_first else chunk[k:]
     return validated, rej, []
 
 
@@ -250,14 +250,14 @@ def model_check(ctx):
     main_cfgs = ["MC_RegAlloc_q"] if ctx.quick else ["MC_RegAlloc", "MC_RegAlloc_4", "MC_RegAlloc_rand"]
     for cfg in main_cfgs:
         mc = ctx.tlc("MC_RegAlloc", cfg, workers=3, coverage=True, timeout=3000,
-                     tlc_seed=11 if cfg.endswith("rand") else None)
+                     tlc_seed=11)          # fixes the RandomElement draws: the random programs are a fixed pool
         if mc.violated:
             ctx.report("model:%s:%s" % (cfg, mc.violated), "MC_RegAlloc (%s): %s is violated: NoClobber does not imply "
                        "that the allocated run equals the virtual-register run" % (cfg, mc.violated),
                        {"tlc": mc.counterexample()[:6000]})
         for k, v in mc.coverage_actions().items():
             cov[k] = [cov.get(k, [0, 0])[0] + v[0], cov.get(k, [0, 0])[1] + v[1]]
-    live = ctx.tlc("MC_RegAlloc", "MC_RegAlloc_liveq" if ctx.quick else "MC_RegAlloc_live", workers=2, timeout=3000)
+    live = ctx.tlc("MC_RegAlloc", "MC_RegAlloc_liveq" if ctx.quick else "MC_RegAlloc_live", workers=2, timeout=3000, tlc_seed=11)
     if live.violated:
         ctx.report("model:live:%s" % live.violated, "the least-fixpoint liveness of RegAlloc.tla differs from path liveness",
                    {"tlc": live.counterexample()[:6000]})
@@ -332,7 +332,7 @@ def self_tests(ctx, recs):
 
     def one(t):
         tag, rs, cfg, want = t
-        _v, rej, _t = _validate_shard(ctx, 0, rs, cfg=cfg, tag="self" + tag)
+        _v, rej, _t = _validate_shard(ctx, 0, rs, cfg=cfg, tag="self" + tag, stop_at_first=True)
         return tag, rej, want
     with ThreadPoolExecutor(max_workers=4) as ex:
         outs = list(ex.map(one, tests))
